@@ -28,6 +28,10 @@ class Executor2(Executor):
         return v
 
     def truthy(self, v):
+        if v.kind == "lenlist":
+            return v.t > 0
+        if v.kind == "list_lit":
+            return z3.BoolVal(len(v.t) > 0)
         if v.kind == "opaque":
             return z3.And(z3.Not(v.none), v.t)
         return Executor.truthy(self, v)
@@ -127,11 +131,32 @@ class Executor2(Executor):
     def call(self, st, f, args, kw, ln):
         if f.kind == "opaque":
             return self.opaque()
+        if f.kind == "func" and isinstance(f.t, str) and f.t.startswith("lenlist."):
+            return self.lenlist_method(st, f.x, f.t[8:], args, ln)
         return Executor.call(self, st, f, args, kw, ln)
+
+    strict_methods = ()   # 'Class.method' names that must have a contract even in lenient mode
+    abstracted_calls = None
+
+    def call_method(self, st, obj, name, args, kw, ln):
+        if self.lenient and not self.spec:
+            c = self._contract_for(obj.cls, name)
+            fm = self._find_method(obj.cls, name)
+            q = "%s.%s" % (obj.cls, name)
+            if c is None and not (fm is not None and (self._is_accessor(obj.cls, name) or self._may_inline(q))):
+                if q in self.strict_methods:
+                    raise Unsupported("call of %s without contract (line %s)" % (q, ln))
+                self.require_not_none(st, obj, "call .%s()" % name, ln)
+                if self.abstracted_calls is not None:
+                    self.abstracted_calls.add(q)
+                return self.opaque("call %s" % q)
+        return Executor.call_method(self, st, obj, name, args, kw, ln)
 
     def attr_of(self, st, base, attr, lineno):
         if base.kind == "opaque":
             return self.opaque()
+        if base.kind == "lenlist":
+            return SV("func", "lenlist." + attr, x=base)
         if self.lenient and not self.spec and base.kind == "ref":
             try:
                 return Executor.attr_of(self, st, base, attr, lineno)
@@ -201,6 +226,82 @@ class Executor2(Executor):
         if not self.lenient:
             raise Unsupported("del")
         return [st], []
+
+    # ------------------------------------------------------------------ length-only lists
+    # A heap field of kind `lenlist` is a Python list of which only the LENGTH is modelled
+    # (contents abstracted).  Mutations are recognised on the access path `obj.field.method(...)`;
+    # a local alias of such a list is outside the subset.
+    def get_attr(self, st, obj, attr, lineno=None):
+        if obj.kind == "ref":
+            try:
+                key, f = self.field(obj.cls, attr)
+            except Unsupported:
+                key, f = None, None
+            if f is not None and f.kind == "lenlist":
+                self.require_not_none(st, obj, "attr .%s" % attr, lineno)
+                arr, na = self.heap_arrays(st, key, f)
+                return SV("lenlist", z3.Select(arr, obj.t), x=(obj, attr, key))
+        return Executor.get_attr(self, st, obj, attr, lineno)
+
+    def _field_sort(self, f):
+        if f.kind == "lenlist":
+            return I
+        return Executor._field_sort(self, f)
+
+    def lenlist_method(self, st, lv, name, args, ln):
+        obj, attr, key = lv.x if lv.x else (None, None, None)
+        cur = lv.t
+
+        def store(newlen):
+            if obj is None:
+                raise Unsupported("mutation of a local length-only list")
+            f = self.schema[key]
+            arr, na = self.heap_arrays(st, key, f)
+            st.heap[key] = (z3.Store(arr, obj.t, newlen), na)
+
+        if name == "append":
+            store(cur + 1)
+            return NoneV()
+        if name == "insert":
+            store(cur + 1)
+            return NoneV()
+        if name == "extend":
+            o = args[0]
+            if o.kind == "lenlist":
+                store(cur + o.t)
+                return NoneV()
+            if o.kind == "tuple" or o.kind == "list_lit":
+                store(cur + len(o.t))
+                return NoneV()
+            raise Unsupported("extend of a length-only list by %s" % o.kind)
+        if name == "pop":
+            self.oblige(st, cur > 0, "no-IndexError[pop from empty list]", ln, kind="safety")
+            store(cur - 1)
+            return self.opaque()
+        if name == "clear":
+            store(z3.IntVal(0))
+            return NoneV()
+        if name in ("index", "count", "copy", "__contains__"):
+            return self.opaque()
+        raise Unsupported("list method %s on a length-only list" % name)
+
+    def bi_len(self, e, st):
+        v = self.ev(e.args[0], st)
+        if v.kind == "lenlist":
+            return SV("int", v.t)
+        if v.kind == "list_lit":
+            return SV("int", z3.IntVal(len(v.t)))
+        if v.kind == "ref":
+            fm = self._find_method(v.cls, "__len__")
+            if fm is not None:
+                return self.call_method(st, v, "__len__", [], {}, getattr(e, "lineno", None))
+        if v.kind == "opaque" or self.lenient:
+            if v.kind in ("tuple",):
+                return SV("int", z3.IntVal(len(v.t)))
+            n = self.fresh("int", "len")
+            st.assume(n.t >= 0)
+            return n
+        return Executor.bi_len(self, e, st)
 
     # ------------------------------------------------------------------ raise: classify
     def st_Raise(self, s, st):
